@@ -200,8 +200,10 @@ impl RK23 {
             }
 
             // Check for last step adjustment
+            let mut last = false;
             if (x + h - xend) * posneg > 0.0 {
                 h = xend - x;
+                last = true;
             }
 
             // Stage 2
@@ -299,8 +301,8 @@ impl RK23 {
                     h = hmax * posneg;
                 }
 
-                // Normal exit
-                if x == xend {
+                // Normal exit: the landing step ends the run even if x + (xend - x) rounds next to xend
+                if last || x == xend {
                     break;
                 }
             } else {
